@@ -26,6 +26,7 @@ func init() {
 			NotCovered: "EQUALITY WITH THE SHA-256 SET MODEL (that Matches/Hashes return exactly the listed names' hashes) and THE PUBLIC-SUFFIX / FOUR-LABEL CUT of hashableSubdomains: " +
 				"hash and string computations outside static reach.",
 			Rules: map[string]string{"C11-R1": "question-type gates", "C11-R2": "prefix length table", "C11-R3": "refuse, not forward", "C11-R4": "digest split agreement",
+				"C11-R7": "hashprefix.Filter.FilterRequest: cache first; then the type gate; then every candidate name (host and parents) is matched in order until the first hit; a hit is answered with the replacement built for this request and cached under this request's key",
 				"C11-R5": "each Storage method reads the atomically published hash set at most once per path (one list version per answer)",
 				"C11-R6": "result-cache key is an injective packing of host, question type, class and direction (a collision lets a non-A/AAAA/HTTPS question hit a filtered entry)"},
 		}})
@@ -97,6 +98,13 @@ func runC11(c *an.Ctx) {
 			return fmt.Sprintf("rules consulted=%v for type %d (only A, AAAA and HTTPS)", want, qt)
 		},
 	})
+
+	// ---- R7: the request filter consults every candidate name until the first match
+	c.Floor("C11-R7", 2)
+	hashprefixFilterRequest(c, "C11-R7")
+	hashprefixFilteredResult(c, "C11-R7")
+	hashprefixSubdomains(c, "C11-R7")
+	hashprefixMatchByPrefix(c, "C11-R3")
 
 	// ---- R2
 	encLen, _ := c.ConstInt("filter/hashprefix", "PrefixEncLen")
@@ -328,3 +336,300 @@ func arrayLen(v ssa.Value) int64 {
 
 func avInt(a an.AV) int64 { return an.Env{"x": a}.I("x") }
 func avStr(a an.AV) string { return an.Env{"x": a}.S("x") }
+
+// hashprefixFilterRequest is the decision table of hashprefix.Filter.FilterRequest.
+func hashprefixFilterRequest(c *an.Ctx, rule string) {
+	decide(c, rule, "filter/hashprefix.(*Filter).FilterRequest", an.DecideCfg{
+		Dom: an.Domain{"hit": an.Bools, "filterable": an.Bools, "nsub": an.Ints(0, 1, 3), "m0": an.Bools, "m1": an.Bools, "m2": an.Bools, "frerr": an.Bools,
+			// candidate names are never empty
+			`(sub0 == "")`: {an.CBool(false)}, `(sub1 == "")`: {an.CBool(false)}, `(sub2 == "")`: {an.CBool(false)}},
+		OnCall: func(it *an.Interp, name string, args []an.AV) (an.AV, bool) {
+			switch {
+			case strings.HasSuffix(name, "filter/internal.NewCacheKey"):
+				return an.Sym("key(" + args[0].String() + "," + args[1].String() + "," + args[2].String() + "," + args[3].String() + ")"), true
+			case strings.HasSuffix(name, ").itemFromCache"):
+				return an.AV{Kind: an.KTuple, Tup: []an.AV{an.NonNil("item"), it.Feature("hit")}}, true
+			case strings.HasSuffix(name, ").updateCacheLookupsMetrics"), strings.HasSuffix(name, ").updateCacheSizeMetrics"):
+				return an.Nil(), true
+			case strings.HasSuffix(name, ").clonedResult"):
+				return an.NonNil("clone(" + args[1].String() + "," + args[2].String() + ")"), true
+			case strings.HasSuffix(name, "hashprefix.isFilterable"):
+				return an.AV{Kind: an.KTuple, Tup: []an.AV{an.Sym("fam(" + args[0].String() + ")"), it.Feature("filterable")}}, true
+			case strings.HasSuffix(name, "hashprefix.hashableSubdomains"):
+				n := avInt(it.Feature("nsub"))
+				sl := an.AV{Kind: an.KSlice}
+				var ks []string
+				for i := int64(0); i < n; i++ {
+					sl.Tup = append(sl.Tup, an.Sym(fmt.Sprintf("sub%d", i)))
+					ks = append(ks, fmt.Sprintf("sub%d", i))
+				}
+				sl.Key = "[" + strings.Join(ks, ", ") + "]"
+				return sl, true
+			case strings.HasSuffix(name, "hashprefix.Storage).Matches"):
+				a := args[1].String()
+				if strings.HasPrefix(a, "sub") {
+					return it.Feature("m" + strings.TrimPrefix(a, "sub")), true
+				}
+				return an.Sym("match of something that is not a candidate name: " + a), true
+			case strings.HasSuffix(name, ").filteredResult"):
+				if it.Feature("frerr").IsTrue() {
+					return an.AV{Kind: an.KTuple, Tup: []an.AV{an.Nil(), an.NonNil("frErr")}}, true
+				}
+				return an.AV{Kind: an.KTuple, Tup: []an.AV{an.NonNil("res(" + args[1].String() + "," + args[2].String() + "," + args[3].String() + ")"), an.Nil()}}, true
+			case strings.HasSuffix(name, ").setInCache"):
+				return an.Nil(), true
+			case name == "p0.resCache.Len":
+				return an.Sym("len"), true
+			}
+			return an.AV{}, false
+		},
+		Expect: func(f an.Features, o an.AOutcome) string {
+			if o.Exit != "return" || len(o.Ret) != 2 {
+				return "a (result, err) return"
+			}
+			key := "key(p2.Host,p2.QType,p2.QClass,false)"
+			var matches, sets, setIn []string
+			for _, e := range o.Effects {
+				if e.Kind != "call" {
+					continue
+				}
+				switch {
+				case strings.HasSuffix(e.Name, ").itemFromCache"):
+					if e.Args[2] != key || e.Args[3] != "p2.Host" {
+						return "the result cache consulted with the key of this request's host, type and class; got " + strings.Join(e.Args[2:], ",")
+					}
+				case strings.HasSuffix(e.Name, "hashprefix.Storage).Matches"):
+					matches = append(matches, e.Args[1])
+				case e.Name == "p0.resCache.Set":
+					sets = append(sets, strings.Join(e.Args, ","))
+				case strings.HasSuffix(e.Name, ").setInCache"):
+					setIn = append(setIn, strings.Join(e.Args[1:], ","))
+				}
+			}
+			if f.B("hit") {
+				if len(matches) == 0 && o.RetString() == "nonnil:clone(p2.DNS,item.res), nil" {
+					return ""
+				}
+				return "a clone of the cached result adapted to this request on a cache hit; got " + o.RetString()
+			}
+			if !f.B("filterable") {
+				if len(matches) == 0 && len(sets)+len(setIn) == 0 && o.RetString() == "nil, nil" {
+					return ""
+				}
+				return "no verdict (and no lookup) for question types other than A, AAAA and HTTPS"
+			}
+			n := int(f.I("nsub"))
+			first := -1
+			var wantMatches []string
+			for i := 0; i < n; i++ {
+				wantMatches = append(wantMatches, fmt.Sprintf("sub%d", i))
+				if f.B(fmt.Sprintf("m%d", i)) {
+					first = i
+					break
+				}
+			}
+			if strings.Join(matches, ",") != strings.Join(wantMatches, ",") {
+				return "the host and each parent name checked in order until the first listed one (" + strings.Join(wantMatches, ",") + "); got " + strings.Join(matches, ",")
+			}
+			if first < 0 {
+				if o.RetString() != "nil, nil" || len(setIn) != 0 {
+					return "no verdict when no candidate name is listed"
+				}
+				return ""
+			}
+			m := fmt.Sprintf("sub%d", first)
+			if f.B("frerr") {
+				if o.Ret[1].Kind != an.KNil && len(setIn) == 0 {
+					return ""
+				}
+				return "the error returned and nothing cached when the replacement cannot be built"
+			}
+			res := "nonnil:res(p2," + m + ",fam(p2.QType))"
+			if o.RetString() != res+", nil" {
+				return "the replacement built for this request, the listed name and the question's address family; got " + o.RetString()
+			}
+			if len(setIn) != 1 || setIn[0] != key+","+res+",p2.Host" {
+				return "the verdict cached under this request's key and host; got " + strings.Join(setIn, " / ")
+			}
+			return ""
+		},
+	})
+}
+
+// hashprefixFilteredResult is the table of filteredResult / respForFamily: which
+// replacement is built for a listed name.
+func hashprefixFilteredResult(c *an.Ctx, rule string) {
+	fam := func(n string) int64 { v, _ := c.ConstInt("github.com/AdguardTeam/golibs/netutil", n); return v }
+	f4, f6, f0 := fam("AddrFamilyIPv4"), fam("AddrFamilyIPv6"), fam("AddrFamilyNone")
+	decide(c, rule, "filter/hashprefix.(*Filter).respForFamily", an.DecideCfg{
+		Dom: an.Domain{"p2": an.Ints(f4, f6, f0), "ipfam": an.Ints(4, 6)},
+		OnCall: func(it *an.Interp, name string, args []an.AV) (an.AV, bool) {
+			switch {
+			case name == "(net/netip.Addr).Is4":
+				return an.CBool(avInt(it.Feature("ipfam")) == 4), true
+			case name == "(net/netip.Addr).Is6":
+				return an.CBool(avInt(it.Feature("ipfam")) == 6), true
+			case strings.HasSuffix(name, "Constructor).NewBlockedResp"):
+				return an.AV{Kind: an.KTuple, Tup: []an.AV{an.NonNil("blocked(" + args[1].String() + ")"), an.Nil()}}, true
+			case strings.HasSuffix(name, "Constructor).NewBlockedRespIP"):
+				return an.AV{Kind: an.KTuple, Tup: []an.AV{an.NonNil("blockedIP(" + args[1].String() + ")"), an.Nil()}}, true
+			case strings.HasSuffix(name, "Constructor).NewRespRCode"):
+				return an.NonNil("rcode(" + args[1].String() + "," + args[2].String() + ")"), true
+			case strings.HasSuffix(name, "Constructor).AddEDE"):
+				return an.Nil(), true
+			}
+			return an.AV{}, false
+		},
+		Expect: func(f an.Features, o an.AOutcome) string {
+			qf, ipf := f.I("p2"), f.I("ipfam")
+			var want string
+			switch {
+			case qf == f0:
+				want = "nonnil:blocked(p1.DNS), nil"
+			case (qf == f4 && ipf == 4) || (qf == f6 && ipf == 6):
+				want = "nonnil:blockedIP(p1.DNS), nil"
+			default:
+				want = "nonnil:rcode(p1.DNS,0), nil"
+			}
+			if o.RetString() != want {
+				return want + " (blocked-page address only for the matching family, NODATA otherwise, the profile's blocking mode for HTTPS; always built from this request); got " + o.RetString()
+			}
+			return ""
+		},
+	})
+}
+
+// hashprefixSubdomains is the table of hashableSubdomains: the candidates are
+// the sub-names of the last four labels, cut before the ICANN public suffix.
+func hashprefixSubdomains(c *an.Ctx, rule string) {
+	const fnKey = "filter/hashprefix.hashableSubdomains"
+	decide(c, rule, fnKey, an.DecideCfg{
+		Dom: an.Domain{"icann": an.Bools, "cut": an.Ints(-1, 7), "(d0 == pubsuf)": an.Bools, "(d1 == pubsuf)": an.Bools, "(d2 == pubsuf)": an.Bools,
+			`(d0 == "")`: {an.CBool(false)}, `(d1 == "")`: {an.CBool(false)}, `(d2 == "")`: {an.CBool(false)}},
+		OnCall: func(it *an.Interp, name string, args []an.AV) (an.AV, bool) {
+			switch {
+			case strings.HasSuffix(name, "publicsuffix.PublicSuffix"):
+				if args[0].String() != "p0" {
+					return an.Sym("public suffix of something else"), true
+				}
+				return an.AV{Kind: an.KTuple, Tup: []an.AV{an.Sym("pubsuf"), it.Feature("icann")}}, true
+			case name == "strings.LastIndexFunc":
+				return it.Feature("cut"), true
+			case strings.HasSuffix(name, "netutil.Subdomains"):
+				return an.AV{Kind: an.KSlice, Key: "subs(" + args[0].String() + ")", Tup: []an.AV{an.Sym("d0"), an.Sym("d1"), an.Sym("d2")}}, true
+			}
+			return an.AV{}, false
+		},
+		Expect: func(f an.Features, o an.AOutcome) string {
+			// which domain was expanded
+			var arg string
+			for _, e := range o.Effects {
+				if e.Kind == "call" && strings.HasSuffix(e.Name, "netutil.Subdomains") {
+					arg = e.Args[0]
+				}
+			}
+			if f.I("cut") == -1 {
+				if arg != "p0" {
+					return "the whole name expanded when it has fewer than four dots; got " + arg
+				}
+			} else if arg == "p0" || arg == "" {
+				return "only the part after the fourth dot from the right expanded; got " + arg
+			}
+			n := 3
+			if f.B("icann") {
+				for i := 0; i < 3; i++ {
+					if f.B(fmt.Sprintf("(d%d == pubsuf)", i)) {
+						n = i
+						break
+					}
+				}
+			}
+			got := -1
+			if len(o.Ret) == 1 && o.Ret[0].Kind == an.KSlice {
+				got = len(o.Ret[0].Tup)
+			}
+			if got != n {
+				return fmt.Sprintf("the %d candidates before the ICANN public suffix (private suffixes are searched in full); got %s", n, o.RetString())
+			}
+			return ""
+		},
+	})
+	// the label cut is at four labels
+	want, _ := c.ConstInt("filter/hashprefix", "subDomainNum")
+	fn := c.Fn(fnKey + "$1")
+	ok := false
+	if fn != nil {
+		an.Instrs(fn, func(in ssa.Instruction) {
+			if b, isBin := in.(*ssa.BinOp); isBin && b.Op == token.EQL {
+				if k, isK := an.ConstInt(b.Y); isK && k == 4 && want == 4 {
+					ok = true
+				}
+			}
+		})
+	}
+	c.Check(ok, rule, fnKey+" label cut", token.NoPos, "the name is cut at the fourth dot from the right", "the label cut is not at four labels")
+}
+
+// hashprefixMatchByPrefix is the table of Matcher.MatchByPrefix: the storage is
+// the one whose suffix the name carries, a malformed prefix list is an error
+// (which the responder turns into REFUSED), and the hashes come from that
+// storage for exactly the parsed prefixes.
+func hashprefixMatchByPrefix(c *an.Ctx, rule string) {
+	r := "range(p0.storages)"
+	decide(c, rule, "filter/hashprefix.(*Matcher).MatchByPrefix", an.DecideCfg{
+		Dom: an.Domain{"next(" + r + ")#0": an.Bools, "next(" + r + ")#1": an.Bools, "next(" + r + ")#2": {an.CBool(false)},
+			"suf0": an.Bools, "suf1": an.Bools, "preferr": an.Bools},
+		OnCall: func(it *an.Interp, name string, args []an.AV) (an.AV, bool) {
+			switch {
+			case name == "strings.HasSuffix":
+				if args[0].String() != "p2" {
+					return an.Sym("suffix test on another string"), true
+				}
+				switch args[1].String() {
+				case "key#0(" + r + ")":
+					return it.Feature("suf0"), true
+				case "key#1(" + r + ")":
+					return it.Feature("suf1"), true
+				}
+				return an.Sym("suffix test with " + args[1].String()), true
+			case strings.HasSuffix(name, "hashprefix.prefixesFromStr"):
+				if it.Feature("preferr").IsTrue() {
+					return an.AV{Kind: an.KTuple, Tup: []an.AV{an.Nil(), an.NonNil("prefErr")}}, true
+				}
+				return an.AV{Kind: an.KTuple, Tup: []an.AV{an.NonNil("prefixes"), an.Nil()}}, true
+			case strings.HasSuffix(name, "hashprefix.Storage).Hashes"):
+				return an.NonNil("hashes(" + args[0].String() + "," + args[1].String() + ")"), true
+			}
+			return an.AV{}, false
+		},
+		Expect: func(f an.Features, o an.AOutcome) string {
+			which := -1
+			for i := 0; i < 2; i++ {
+				if !f.B(fmt.Sprintf("next(%s)#%d", r, i)) {
+					break
+				}
+				if f.B(fmt.Sprintf("suf%d", i)) {
+					which = i
+					break
+				}
+			}
+			if which < 0 {
+				if o.RetString() == "nil, false, nil" && !o.HasCall("(*filter/hashprefix.Storage).Hashes") {
+					return ""
+				}
+				return "not matched (and no lookup) when the name carries none of the configured suffixes; got " + o.RetString()
+			}
+			if f.B("preferr") {
+				if len(o.Ret) == 3 && o.Ret[0].Kind == an.KNil && o.Ret[2].Kind != an.KNil && !o.HasCall("(*filter/hashprefix.Storage).Hashes") {
+					return ""
+				}
+				return "an error and no lookup for a malformed prefix list; got " + o.RetString()
+			}
+			want := fmt.Sprintf("nonnil:hashes(nonnil:elem#%d(%s),nonnil:prefixes), true, nil", which, r)
+			if o.RetString() != want {
+				return "the hashes of the storage whose suffix matched, for the parsed prefixes; got " + o.RetString()
+			}
+			return ""
+		},
+	})
+}
